@@ -50,6 +50,8 @@ type StagedConfig struct {
 	FieldOf  map[string]*types.Var // builder field name -> var
 	Skels    []*Skeleton
 	Errs     []string
+	Used     map[string]bool // template fields consulted when rendering this configuration
+	Unfilled map[string]bool // … of which no builder step assigns a value (zero value rendered)
 }
 
 type Staged struct {
@@ -467,16 +469,72 @@ func (r *renderer) holeText(h *SHole) string {
 	return "0"
 }
 
+// templateRefs lists the names the parsed template refers to: fields (".X") and functions ("func f").
+func templateRefs(tree *parse.Tree) []string {
+	var refs []string
+	var walk func(n parse.Node)
+	walk = func(n parse.Node) {
+		switch x := n.(type) {
+		case *parse.ListNode:
+			if x != nil {
+				for _, m := range x.Nodes {
+					walk(m)
+				}
+			}
+		case *parse.ActionNode:
+			walk(x.Pipe)
+		case *parse.PipeNode:
+			if x != nil {
+				for _, cmd := range x.Cmds {
+					for _, a := range cmd.Args {
+						walk(a)
+					}
+				}
+			}
+		case *parse.FieldNode:
+			if len(x.Ident) > 0 {
+				refs = append(refs, x.Ident[0])
+			}
+		case *parse.ChainNode:
+			walk(x.Node)
+		case *parse.IfNode:
+			walk(x.Pipe)
+			walk(x.List)
+			walk(x.ElseList)
+		case *parse.RangeNode:
+			walk(x.Pipe)
+			walk(x.List)
+			walk(x.ElseList)
+		case *parse.WithNode:
+			walk(x.Pipe)
+			walk(x.List)
+			walk(x.ElseList)
+		case *parse.IdentifierNode:
+			refs = append(refs, "func "+x.Ident)
+		case *parse.TemplateNode:
+			walk(x.Pipe)
+		}
+	}
+	if tree != nil {
+		walk(tree.Root)
+	}
+	return refs
+}
+
 // renderTemplate walks the parsed template for one configuration.
 func (sc *StagedConfig) renderTemplate(r *renderer) string {
 	var b strings.Builder
 	var walk func(n parse.Node)
+	if sc.Used == nil {
+		sc.Used, sc.Unfilled = map[string]bool{}, map[string]bool{}
+	}
 	fieldShape := func(name string) string {
 		fv := sc.FieldOf[name]
 		if fv == nil {
 			r.errf("template refers to unknown builder field .%s", name)
 			return ""
 		}
+		sc.Used[name] = true
 		if sh, ok := sc.Eval.fields[fv]; ok {
 			return r.render(sh)
 		}
@@ -488,6 +546,7 @@ func (sc *StagedConfig) renderTemplate(r *renderer) string {
 			return "true"
 		}
 		// never assigned: zero value
+		sc.Unfilled[name] = true
 		if isStringType(fv.Type()) {
 			return ""
 		}
@@ -521,6 +580,7 @@ func (sc *StagedConfig) renderTemplate(r *renderer) string {
 				return
 			}
 			var v bool
+			sc.Used[name] = true // a mode switch nobody sets merely disables the mode: not reported as unfilled
 			switch name {
 			case "NeedPacked":
 				v = sc.V.Packed
